@@ -262,3 +262,19 @@ MANIFEST_TEXT["C11"] = dict(engine="E-input", design_ref="DESIGN.md §4 C11",
     technique="bounded exhaustive enumeration of bit sequences x all conversion chains up to length 3 x all builder call decompositions, with a canonical-form oracle (== and identical bytes)",
     level_text="All 159 conversion chains on every bit sequence up to 10/12 bits and on multi-block representatives; every decomposition of small run lists into builder calls incl. interleaved set_len.",
     level_note="Chains longer than 3 and larger inputs are not explored.")
+
+PROPS["C13"] = dict(
+    driver="c13", builds=["rel", "dbg"], level="exploration",
+    rule="E-input + E-fault: real files made of every single mappable catalogue value (behind 0/1/3 padding elements, both mapping modes), every ordered pair, and every triple over a sub-catalogue "
+         "(Vec<u64|usize|(u64,u64)>, byte vectors of many lengths, ASCII and multi-byte strings, Option of those incl. None, RawVector, IntVector at many widths, Option<IntVector>). For the intact file and for EVERY 8-byte truncation: "
+         "a view (MappedSlice / MappedBytes / MappedStr / MappedOption / RawVectorMapper / IntVectorMapper) at each structure start that lies entirely inside the file exposes exactly the content load would give "
+         "(all bit/int/word/get/iter accessors), map_offset() is the start and map_offset()+map_len() is the next structure's offset; a view of a structure that is cut short or starts beyond the end is refused with Err. "
+         "For the intact file every view type at offsets {len, len+1, 2len, 2^63, MAX-1, MAX} is refused with Err (no panic). Distinct = distinct files.",
+    bounds={"quick": "58-value mappable catalogue: 348 single-value files, 3 364 pairs, ~1 700 triples; 35 000 cut structures", "thorough": "extended catalogue (all widths, all byte lengths), all pairs, 8 000 triples"},
+    require_counters={"quick": {"cut_structures": 1000}, "thorough": {"cut_structures": 1000}},
+    assumptions=[HOOK_ASSUMPTION, "files are written by the library's own serialization (the property is about library-written files)"],
+)
+MANIFEST_TEXT["C13"] = dict(engine="E-input", design_ref="DESIGN.md §4 C13",
+    technique="bounded exhaustive enumeration of file layouts (all pairs/triples of mappable values) x every 8-byte truncation x out-of-range offsets, on real files and real mmap, compared with the described content",
+    level_text="Every pair (and many triples) of mappable values in one file, views at every structure start with tiling checked, every 8-byte truncation of every file, and six out-of-range offsets per view type.",
+    level_note="Files with more than three structures and values outside the catalogue are not explored.")
